@@ -235,6 +235,17 @@ def obligations(tier, rng):
         fut = refsem.has_future(f)
         for mode in ['offline'] + (['pastified'] if fut else ['online', 'pastified']):
             out.append(ob('C09', 'const', 'const/%s/%s' % (mode, tm), txt_mod=tm, consts=cs, txt_inl=ti, N=N, mode=mode, f=f))
+    # the declared TYPE of a constant is a label: whatever it says, the constant stands for the literal that was given
+    C25 = ('const', 2.5)
+    for ty in ('int', 'long', 'float', 'double', 'int32', 'uint8'):
+        for tm, cs, ti, f in [('out = (x) >= (c)', [['c', ty, '2.5']], 'out = (x) >= (2.5)', ('geq', X, C25)),
+                              ('out = once[0,1]((x) * (c))', [['c', ty, '0.5']], 'out = once[0,1]((x) * (0.5))', ('once_t', ('mul', X, ('const', 0.5)), 0, 1)),
+                              ('out = ((c) - (x)) since (y)', [['c', ty, '2.5']], 'out = ((2.5) - (x)) since (y)', ('since', ('sub', C25, X), Y)),
+                              ('const %s c = 2.5\nout = (x) >= (c)' % ty, [], 'out = (x) >= (2.5)', ('geq', X, C25))]:
+            if ty in ('int32', 'uint8', 'double') and tm.startswith('const'):
+                continue                                   # declared in the text: only the type names the grammar knows
+            for mode in (['offline', 'online'] if not quick or ty in ('int', 'long') else ['online']):
+                out.append(ob('C09', 'const', 'const-type/%s/%s/%s' % (mode, ty, tm.replace('\n', ' ; ')), txt_mod=tm, consts=cs, txt_inl=ti, N=N, mode=mode, f=f))
     # fractional constants as bounds, written in a coarser unit than the default unit of the specification
     for unit, per in (('ns', (500, 'ns')), ('us', (500, 'ns')), ('ns', (500, 'us')), ('ms', (500, 'us')), ('s', (500, 'ms'))):
         cu = {'ns': 'us', 'us': 'ms', 'ms': 's'}[per[1]]
